@@ -2,8 +2,9 @@ package main
 
 // TRANSL: the syntactic tie between the Go source and the Gallina model.
 // `gen` re-translates sdf/matrix.go (harness/exprgen -> Generated/MatrixExpr.v) and the vector and
-// box methods, blend/extrusion helpers, Evaluate methods and loop-free constructors
-// (harness/sdfgen -> Generated/SdfExpr.v) from the current source tree; Props/TRANSL.v then states, per Go function, that the generated definition equals the
+// box methods (incl. MinMaxDist2, VecSet.Min/Max), blend/extrusion helpers, Evaluate methods and
+// constructors - loop-free ones and the ones with loops: Union, Array, RotateUnion, RotateCopy, Slice,
+// Revolve, the twisted extrusions - (harness/sdfgen -> Generated/SdfExpr.v) from the current source tree; Props/TRANSL.v then states, per Go function, that the generated definition equals the
 // hand-written model function for all arguments over an arbitrary Ops (Sdf/GenEq.v).  A semantic
 // edit of one of these Go functions breaks the theorem of that name.  `run` only records which
 // functions were translated (there is nothing to sample: the obligation is the proof).
@@ -41,13 +42,18 @@ func check(c *Ctx, r *Report) error {
 	r.Coverage["targets"] = nt
 	r.Rule = "one case per Go function translated into Generated/SdfExpr.v; the obligations are the TRANSL_* theorems"
 	r.Trusted = []string{
-		"harness/sdfgen and harness/exprgen (Go AST -> Gallina, syntactic; literals mapped exactly: 0,1,2,0.5 by name, integers by ofZ, decimals n/10^k by cst)",
+		"harness/sdfgen and harness/exprgen (Go AST -> Gallina, syntactic; literals mapped exactly: 0,1,2,0.5 by name, integers by ofZ, dyadic decimals p/2^k and decimals n/10^k by cst)",
+		"sdfgen loops: `for .. range xs`, `for i := 0; i < n; i++` (nested, `continue` at the top level of the body) become fold_left / range_loop / count_loop (coq/Num/Loop.v) over the tuple of variables the body assigns; xs[i] = v is list_set, xs[i] is nth, append is ++, make([]T, n) is repeat zero n; Go int is Z",
+		"sdfgen normal forms: (-x)*y, x*(-y), (-x)/y, x/(-y) are written -(x*y), -(x/y) (the same float64 up to the sign bit of a NaN); a constant product/quotient the Go compiler folds exactly is accepted only when the float64 evaluation of the rounded operands gives the correctly rounded exact value (checked per constant, e.g. 1.5*Pi)",
 		"Ops fields stand for the float64 operations of the same name (omax = math.Max, ofmod = math.Mod, ...)",
 	}
 	r.Assumptions = []string{
 		"wrapped SDFs (s.sdf.Evaluate) and function-valued fields (s.extrude, s.max) are pure functions (C09/C10 effect summaries)",
 		"wrapped SDF arguments of constructors are non-nil (`x == nil` is translated to false, as the model's k_xxx assume)",
-		"constructors with loops (Union, Array, RotateUnion, RotateCopy, Revolve, Slice, TwistExtrude, ScaleTwistExtrude), MinMaxDist2 and VecSet.Min/Max are not translated: tied by the sampled correspondence of C01/C02/C03/C16 only",
+		"index expressions are in range and integer arithmetic does not overflow (Go would panic / wrap; nth returns the zero value, Z is unbounded): the tie is about executions that do not panic",
+		"slices are not aliased: a slice variable that is written by index was bound to a fresh value (make, literal, result of a call); a loop bound is not modified by the loop body (both are checked by the translator and refused otherwise)",
+		"Union2D/Union3D: operands are non-nil (the nil-stripping loop is translated with `x != nil` = true)",
+		"not translated (tied by the sampled correspondence of the property checks only): SetMin/SetMax/SetExtrude mutators, Center2D/CenterAndScale2D/LineOf/Multi/Orient (compositions), sdf/screw.go, sdf/poly.go, sdf/bezier.go, sdf/mesh2.go",
 		"an object is what its Evaluate and BoundingBox methods return; SetMin/SetMax/SetExtrude mutators are the model's MinK/MaxK/extrusion arguments",
 	}
 	if nt != len(targets) {
